@@ -2026,6 +2026,75 @@ def rule_shift_in_destination_type(out, tier):
         out.undecided(rid, "anchor/varint assembly", rel, "no `value |= x << shift` found")
 
 
+def rule_pointer_offset_units(out, tier):
+    rid = "CP1"
+    out.rule(rid, "serializers.h: in the address handed to ReadBytes/WriteBytes, a pointer and the offset added to it count in the same unit — an element pointer plus an element "
+                  "count, or a byte pointer (reinterpret_cast to char/uint8_t) plus a count multiplied by sizeof: a byte pointer plus an element count lands inside the previous block", 1)
+    roots, rc, err = dump(out.repo, "serializers.h")
+    rel = BIN + "/serializers.h"
+    if rc != 0 or not roots:
+        out.undecided(rid, "clang/serializers.h", rel, "clang could not parse the header: " + err[-300:])
+        return
+    for r in roots:
+        annotate_lines(r)
+    byte_ptr = re.compile(r"^(const )?(unsigned char|uint8_t|char|std::byte|signed char|int8_t) \*")
+    n = 0
+    seen = set()
+    for r in roots:
+        for fn in walk(r):
+            if fn.get("kind") not in ("FunctionDecl", "CXXMethodDecl") or body_of(fn) is None or fn.get("id") in seen:
+                continue
+            seen.add(fn.get("id"))
+            inits = {}
+            for v in walk(body_of(fn)):
+                if v.get("kind") == "VarDecl" and v.get("inner"):
+                    inits[v.get("id")] = [c for c in v["inner"] if isinstance(c, dict)][-1]
+
+            def expand(node, depth=0):
+                """the expression with locals replaced by their initialisers"""
+                yield node
+                if node.get("kind") == "DeclRefExpr" and depth < 3:
+                    tgt = (node.get("referencedDecl") or {}).get("id")
+                    if tgt in inits:
+                        yield from expand(inits[tgt], depth + 1)
+                for c in node.get("inner") or []:
+                    if isinstance(c, dict):
+                        yield from expand(c, depth)
+
+            for call in walk(body_of(fn)):
+                if call.get("kind") not in ("CXXMemberCallExpr", "CallExpr"):
+                    continue
+                inner = [c for c in call.get("inner") or [] if isinstance(c, dict)]
+                if len(inner) < 2 or inner[0].get("kind") != "MemberExpr" or inner[0].get("name") not in ("ReadBytes", "WriteBytes"):
+                    continue
+                for plus in expand(inner[1]):
+                    if plus.get("kind") != "BinaryOperator" or plus.get("opcode") != "+":
+                        continue
+                    ops = [c for c in plus.get("inner") or [] if isinstance(c, dict)]
+                    if len(ops) != 2:
+                        continue
+                    # which side is the pointer?
+                    def is_ptr(o):
+                        t = (o.get("type") or {}).get("qualType", "")
+                        return t.endswith("*") or t == "<dependent type>" and any(x.get("kind") in ("CXXDependentScopeMemberExpr",) or x.get("name") == "data" for x in walk(o))
+                    a, b = (ops[0], ops[1]) if is_ptr(ops[0]) or not is_ptr(ops[1]) else (ops[1], ops[0])
+                    ptr_bytes = any(x.get("kind") in ("CXXReinterpretCastExpr", "CXXStaticCastExpr", "CStyleCastExpr") and byte_ptr.match(_bare_keep_ptr((x.get("type") or {}).get("qualType", "")))
+                                    for x in expand(a))
+                    off_bytes = any(x.get("kind") == "UnaryExprOrTypeTraitExpr" and x.get("name") == "sizeof" for x in expand(b))
+                    n += 1
+                    key = "%s/%s(%s + %s)" % (fn.get("name"), inner[0].get("name"), txt(a), txt(b))
+                    posn = "%s:%d" % (rel, plus.get("_line", call.get("_line", 0)))
+                    out.check(ptr_bytes == off_bytes, rid, key, posn, "pointer and offset both count %s" % ("bytes" if ptr_bytes else "elements"),
+                              "the pointer counts %s but the offset added to it counts %s: the bytes of this block are stored at the wrong place of the destination — a batch that spans two "
+                              "blocks is corrupted" % ("bytes" if ptr_bytes else "elements", "bytes" if off_bytes else "elements"))
+    if n == 0:
+        out.undecided(rid, "anchor/offset", rel, "no ReadBytes/WriteBytes with an offset address found")
+
+
+def _bare_keep_ptr(t):
+    return " ".join((t or "").replace("volatile", " ").split())
+
+
 def _nlohmann_include():
     for d in ("/usr/include", "/usr/local/include", "/root/miniconda/include", "/opt/conda/include"):
         if os.path.exists(os.path.join(d, "nlohmann", "json.hpp")):
@@ -2216,5 +2285,5 @@ RULES = {
     "C15": [rule_cxx_header, rule_ndjson_header],
     "C04": [rule_cxx_header, rule_output_order, rule_ndjson_header],
     "C03": [rule_output_order, rule_reader_overwrites, rule_integer_dispatch, rule_shift_in_destination_type, rule_zigzag_width],
-    "C17": [rule_reader_overwrites, rule_blocks, rule_trivial_trait_set, rule_output_order],
+    "C17": [rule_reader_overwrites, rule_blocks, rule_trivial_trait_set, rule_output_order, rule_pointer_offset_units],
 }
